@@ -320,7 +320,7 @@ def check_purity_mn(case, out):
 
 
 # ---------------------------------------------------------------------------------------------- engine histories
-QOPS = ["plain", "plain", "evidence", "evidence", "virtual", "virtual", "map", "order", "invalid", "repeat"]
+QOPS = ["plain", "plain", "evidence", "evidence", "virtual", "virtual", "map", "map_virtual", "order", "max_calibrate", "invalid", "repeat"]
 
 
 @st.composite
@@ -363,7 +363,7 @@ def run_engine(case, out):
         if op in ("evidence", "map", "order") and rest:
             v = rest[s["c"] % len(rest)]
             ev = {v: spec["states"][J.idx[v]][a[J.idx[v]]]}
-        if op == "virtual" and rest:
+        if op in ("virtual", "map_virtual") and rest:
             v = rest[s["c"] % len(rest)]
             k = spec["card"][J.idx[v]]
             lik = [[0.2, 0.9, 0.5][(s["a"] + i) % 3] for i in range(k)]
@@ -387,8 +387,10 @@ def run_engine(case, out):
             kw = {}
             if virt:
                 kw["virtual_evidence"] = _virtual_cpds(spec, virt)
-            if op == "map":
+            if op in ("map", "map_virtual"):
                 return engine.map_query(q, evidence=ev or None, show_progress=False, **kw)
+            if op == "max_calibrate" and kind == "bp":
+                engine.max_calibrate()  # leaves max-marginal beliefs behind: the next sum query must not use them
             if elim is not None and kind == "ve":
                 kw["elimination_order"] = elim
             return engine.query(q, evidence=ev or None, show_progress=False, **kw)
@@ -430,7 +432,7 @@ def run_engine(case, out):
             if canon(again) != canon(got):
                 out.fail(f"{tag}:same_question_twice_differs", f"q={q} ev={ev} virtual={virt}")
                 return
-            if kind in ("ve", "bp") and op in ("plain", "evidence", "virtual", "order"):
+            if kind in ("ve", "bp") and op in ("plain", "evidence", "virtual", "order", "max_calibrate"):
                 want = J.marginal(q, ev, [(v, l) for v, l in virt])
                 d = compare_named(factor_to_named(got), want)
                 if d:
@@ -439,7 +441,7 @@ def run_engine(case, out):
         if seen_virtual and op != "virtual":
             out.nontrivial = True
             out.cls("question_after_virtual_evidence")
-        if op == "virtual" and virt:
+        if op in ("virtual", "map_virtual") and virt:
             seen_virtual = True
         if op == "invalid":
             out.cls("invalid_question_in_history")
